@@ -721,6 +721,7 @@ class ConsumerGroup(Coordinator):
             consumer_kwargs = {}
         self.consumer_kwargs = consumer_kwargs
         self.consumers = {}
+        self._stop_requested = False
 
     def __repr__(self):
         return "<afkak.{} 0x{:x} for {!r} {} member_id={!r}>".format(
@@ -822,6 +823,9 @@ class ConsumerGroup(Coordinator):
         starts up consumers for the newly assigned partitions
         """
         log.debug("%s on_join_complete: %s", self, assignments)
+        if self._stop_requested:
+            # A join that was in flight when stop() was called: start nothing
+            return
         for topic, partitions in assignments.items():
             for partition in partitions:
                 consumer = Consumer(
@@ -865,5 +869,19 @@ class ConsumerGroup(Coordinator):
         This waits for any ongoing processing to complete and commits offsets.
         It may take some time.
         """
-        yield self.shutdown_consumers()
-        yield super(ConsumerGroup, self).stop(errback_result=errback_result)
+        # From here on no rejoin may start new consumers: they would not be
+        # shut down below and would outlive the group membership.
+        self._stop_requested = True
+        try:
+            yield self.shutdown_consumers()
+            yield super(ConsumerGroup, self).stop(errback_result=errback_result)
+        finally:
+            self._stop_requested = False
+
+    def join_and_sync(self):
+        if self._stop_requested:
+            log.debug("%s join_and_sync: stop requested, not rejoining", self)
+            if self._rejoin_wait_dc and not self._rejoin_wait_dc.active():
+                self._rejoin_wait_dc = None  # it has just called us
+            return
+        return super(ConsumerGroup, self).join_and_sync()
